@@ -1,4 +1,5 @@
 import Proofs.C18Frame
+import Proofs.C18Heap
 /-!
 # C18 — compression is transparent and only used as negotiated (property theorems)
 
@@ -419,5 +420,153 @@ theorem C18_unexpected_compressed (f : Framer) (h : Head) (r : Bytes)
 
 example : (newFramer none 4).readFrame { version := 0x84, flags := 1, stream := 0, op := 8, length := 2 } [1, 2]
     = .error .noCompressor := by rfl
+
+/-! ### ownership of the buffers that cross the compressor boundary (Model/CompressHeap.lean)
+
+FULL STATEMENT of the sub-property: whatever the compressor does with memory, a result that somebody
+still holds — the body `readFrame` left in the framer a caller / an Iter is still reading, an `Encode`
+result — shows the value the call returned, however many codec calls of whatever sizes, in whatever
+order, on whatever connection, run afterwards, and whatever the callers do to their input buffers
+afterwards. That holds for the discipline of the code that exists (`fresh`: a new buffer per result —
+`snappy.Decode(nil, …)`, `snappy.Encode(nil, …)`, `make` in lz4.go, a new framer per response in
+Conn.recv): theorems below, for ALL op sequences. It does not hold for every discipline: kernel-checked
+counterexamples for a pooled-and-returned result buffer and for a result that aliases the input. -/
+
+/-- **Held results are never modified by later operations.** For every function table (any codec),
+    every op sequence (hold / drop / caller scribbling over its inputs, any number, any sizes): a
+    result that is held at the end shows exactly the value its call returned, and that value is what
+    the function gives for the slot's argument — independent of everything that ran in between. -/
+theorem C18_held_intact (F : Dir → Bytes → Except Unit Bytes) (ops : List Op) (k : Nat) (sl : Slot)
+    (h : (run .fresh F ops).lookup k = some sl) :
+    F sl.dir sl.arg = .ok sl.want ∧ (run .fresh F ops).heap.read sl.res = sl.want :=
+  have ⟨_, _, h3, h4⟩ := (good_run F ops).ok k sl (mem_of_lookupSlot h)
+  ⟨h4, h3⟩
+
+/-- op `chk` answers with the specification's value: what the function gives for that slot's input -/
+theorem C18_chk_spec (F : Dir → Bytes → Except Unit Bytes) (ops : List Op) (k : Nat) (b : Bytes)
+    (h : (run .fresh F ops).chk k = some b) :
+    ∃ sl, (run .fresh F ops).lookup k = some sl ∧ F sl.dir sl.arg = .ok b := by
+  unfold St.chk at h
+  cases hl : (run .fresh F ops).lookup k with
+  | none => simp [hl] at h
+  | some sl =>
+    have ⟨h1, h2⟩ := C18_held_intact F ops k sl hl
+    simp only [hl, Option.map_some, Option.some.injEq] at h
+    exact ⟨sl, rfl, by rw [← h, h2]; exact h1⟩
+
+/-- **… whatever runs later.** A slot that holds `sl` after `ops₁` holds the same slice with the same
+    bytes after any continuation `ops₂` that does not itself re-use or drop that slot. -/
+theorem C18_held_stable (F : Dir → Bytes → Except Unit Bytes) (ops₁ ops₂ : List Op) (k : Nat) (sl : Slot)
+    (h : (run .fresh F ops₁).lookup k = some sl) (hn : ∀ op ∈ ops₂, op.touches k = false) :
+    (run .fresh F (ops₁ ++ ops₂)).lookup k = some sl ∧
+    (run .fresh F (ops₁ ++ ops₂)).heap.read sl.res = (run .fresh F ops₁).heap.read sl.res := by
+  have hl : (run .fresh F (ops₁ ++ ops₂)).lookup k = some sl := by
+    unfold run; rw [List.foldl_append]
+    rw [lookup_foldl .fresh F k ops₂ hn]; exact h
+  exact ⟨hl, by rw [(C18_held_intact F _ k sl hl).2, (C18_held_intact F _ k sl h).2]⟩
+
+/-- **Codec calls do not write to their callers' buffers.** Whatever calls run later (any number,
+    no `mutIn` by the caller itself): the input buffer of a held slot — and in fact every buffer that
+    existed — shows the same bytes. -/
+theorem C18_input_untouched (F : Dir → Bytes → Except Unit Bytes) (ops₁ ops₂ : List Op) (k : Nat) (sl : Slot)
+    (h : (run .fresh F ops₁).lookup k = some sl)
+    (hn : ∀ op ∈ ops₂, ∀ k' i x, op ≠ .mutIn k' i x) :
+    (run .fresh F (ops₁ ++ ops₂)).heap.read sl.inp = (run .fresh F ops₁).heap.read sl.inp := by
+  have hid : sl.inp.id < (run .fresh F ops₁).heap.mem.length :=
+    ((good_run F ops₁).ok k sl (mem_of_lookupSlot h)).2.1
+  apply read_congr
+  unfold run; rw [List.foldl_append]
+  exact buf_foldl_noMut F ops₂ hn _ _ hid
+
+/-- **Several responses in flight.** On a connection whose framer `f` carries a compressor that
+    round-trips, for EVERY sequence of boundary crossings (responses received on this or other
+    connections, requests encoded, in any number, sizes and order): whoever still holds the body of a
+    response the server built from `body` reads `body`; a held `Decode` result of the server's
+    `Encode(body)` reads `body`; a held `Encode` result still decodes to its argument. -/
+theorem C18_inflight_delivered (f : Framer) (hv : ValidProto f) (c : Codec) (hcomp : f.comp = some c)
+    (hc : c.RoundTrips) (ops : List Op) (k : Nat) (sl : Slot)
+    (h : (run .fresh (connF f c) ops).lookup k = some sl) :
+    (∀ fl op s body, sl.dir = .recv → f.build fl op s body = .ok sl.arg →
+        sl.arg.length - f.headSize ≤ maxFrameSize →
+        (run .fresh (connF f c) ops).heap.read sl.res = body) ∧
+    (∀ body, sl.dir = .dec → c.enc body = .ok sl.arg →
+        (run .fresh (connF f c) ops).heap.read sl.res = body) ∧
+    (sl.dir = .enc → c.dec ((run .fresh (connF f c) ops).heap.read sl.res) = .ok sl.arg) := by
+  have ⟨hF, hr⟩ := C18_held_intact (connF f c) ops k sl h
+  rw [hr]
+  refine ⟨fun fl op s body hd hb hsz => ?_, fun body hd he => ?_, fun hd => ?_⟩
+  · have ht := C18_transparent f hv (fun c' h' => by rw [hcomp] at h'; injection h' with h'; subst h'; exact hc)
+      fl op s body sl.arg hb hsz
+    rw [hd] at hF
+    simp only [connF, ht] at hF
+    injection hF with hF; exact hF.symm
+  · rw [hd] at hF
+    simp only [connF, hc body sl.arg he] at hF
+    injection hF with hF; exact hF.symm
+  · rw [hd] at hF
+    exact hc sl.arg sl.want hF
+
+theorem tagCodec_roundTrips : tagCodec.RoundTrips := by
+  intro x y h
+  simp only [tagCodec] at h
+  injection h with h; subst h; rfl
+
+theorem tagCodec_total : tagCodec.Total := fun _ => ⟨_, rfl⟩
+
+/-- non-vacuity: three results of different sizes held across later calls and a scribbled input -/
+example :
+    let s := run .fresh (connF (newFramer (some tagCodec) 4) tagCodec)
+      [.hold 0 .dec [0x5A, 1, 2, 3], .hold 1 .dec [0x5A, 9, 8, 7], .hold 2 .enc [4, 4],
+       .hold 3 .recv [0x84, 1, 0, 1, 8, 0, 0, 0, 3, 0x5A, 6, 6], .mutIn 0 1 0xFF, .hold 4 .dec [0x5A], .drop 1]
+    s.chk 0 = some [1, 2, 3] ∧ s.chk 1 = none ∧ s.chk 2 = some [0x5A, 4, 4] ∧ s.chk 3 = some [6, 6] ∧
+    s.chk 4 = some [] ∧ s.input 0 = some [0x5A, 0xFE, 2, 3] := by decide
+
+/-- FULL STATEMENT ("held results stay intact under EVERY memory discipline of the compressor") is
+    false. Kernel-checked witness for the pooled-and-returned result buffer (`buf := pool.Get();
+    defer pool.Put(buf); return snappy.Decode(buf, data)`): two responses, the second decoded while the
+    first is still held and not longer than the recycled buffer — the holder of the first reads the
+    bytes of the second. This is also the replay input for the real code (op `held`). -/
+theorem C18_cex_pooled_result :
+    let s := run .pooled (connF (newFramer (some tagCodec) 4) tagCodec)
+      [.hold 0 .dec [0x5A, 1, 2, 3], .hold 1 .dec [0x5A, 9, 8, 7]]
+    (s.lookup 0).map (·.want) = some [1, 2, 3] ∧ s.chk 0 = some [9, 8, 7] ∧ s.chk 1 = some [9, 8, 7] := by
+  decide
+
+/-- … the same through the receive path of a connection: two compressed responses in flight (streams
+    1 and 2), the caller of stream 1 parses after stream 2 was received; a SHORTER second body leaves a
+    mixture; a LONGER one does not fit the recycled buffer and leaves the first intact (why strictly
+    sequential use, or growing sizes, never show it). -/
+theorem C18_cex_pooled_inflight :
+    let F := connF (newFramer (some tagCodec) 4) tagCodec
+    let wA : Bytes := [0x84, 1, 0, 1, 8, 0, 0, 0, 4, 0x5A, 1, 2, 3]
+    let wB : Bytes := [0x84, 1, 0, 2, 8, 0, 0, 0, 3, 0x5A, 9, 8]
+    let wC : Bytes := [0x84, 1, 0, 3, 8, 0, 0, 0, 5, 0x5A, 7, 7, 7, 7]
+    (run .pooled F [.hold 1 .recv wA, .hold 2 .recv wB]).chk 1 = some [9, 8, 3] ∧
+    (run .pooled F [.hold 1 .recv wA, .hold 3 .recv wC]).chk 1 = some [1, 2, 3] ∧
+    (run .fresh F [.hold 1 .recv wA, .hold 2 .recv wB, .hold 3 .recv wC]).chk 1 = some [1, 2, 3] := by
+  decide
+
+/-- … and for a result that is a sub-slice of the caller's input (a block handed back without a copy):
+    the caller re-using its input buffer afterwards changes the held result. -/
+theorem C18_cex_alias_input :
+    let s := run .aliasInput (connF (newFramer (some tagCodec) 4) tagCodec)
+      [.hold 0 .dec [0x5A, 1, 2, 3], .mutIn 0 1 0xFF]
+    (s.lookup 0).map (·.want) = some [1, 2, 3] ∧ s.chk 0 = some [0xFE, 2, 3] := by
+  decide
+
+/-- the instance the model driver answers ops `held` / `flight` with (framer of a v4 connection whose
+    compressor is `tagCodec`): the hypotheses of `C18_inflight_delivered` hold for it, so a consumer's
+    answer is the body its response was built from — for every history of the process. -/
+theorem C18_inflight_model (ops : List Op) (k : Nat) (sl : Slot)
+    (h : (run .fresh (connF (newFramer (some tagCodec) 4) tagCodec) ops).lookup k = some sl)
+    (fl op : UInt8) (s : Int) (body : Bytes) (hd : sl.dir = .recv)
+    (hb : (newFramer (some tagCodec) 4).build fl op s body = .ok sl.arg)
+    (hsz : sl.arg.length - (newFramer (some tagCodec) 4).headSize ≤ maxFrameSize) :
+    (run .fresh (connF (newFramer (some tagCodec) 4) tagCodec) ops).chk k = some body := by
+  have hv : ValidProto (newFramer (some tagCodec) 4) := by
+    unfold ValidProto newFramer; decide
+  have := (C18_inflight_delivered (newFramer (some tagCodec) 4) hv tagCodec rfl tagCodec_roundTrips ops k sl h).1
+    fl op s body hd hb hsz
+  simp [St.chk, h, this]
 
 end C18
